@@ -774,6 +774,7 @@ pub fn dh_choice(s: &str) -> Option<DHChoice> {
     match s {
         "Curve25519" => Some(DHChoice::Curve25519),
         "Curve448" => Some(DHChoice::Curve448),
+        #[cfg(feature = "full")]
         "P256" => Some(DHChoice::P256),
         _ => None,
     }
@@ -781,6 +782,7 @@ pub fn dh_choice(s: &str) -> Option<DHChoice> {
 pub fn cipher_choice(s: &str) -> Option<CipherChoice> {
     match s {
         "ChaChaPoly" => Some(CipherChoice::ChaChaPoly),
+        #[cfg(feature = "full")]
         "XChaChaPoly" => Some(CipherChoice::XChaChaPoly),
         "AESGCM" => Some(CipherChoice::AESGCM),
         _ => None,
